@@ -56,16 +56,16 @@ var verifC17Keys = []string{
 }
 
 var verifC17Sigs = [10][4]string{
-	{"3a6ea77c49ce0708c882430ec73c4b3963ee2740027a3c8bb28b2a0ac9b3dd26072e6caaf8e64a4bf468062433759ab79cc6961b38793d10a51a177581be2b00", "88ea3e0e287d50c13e8fc1954f2d65829f8a9a48c439b5157561ae2b680f0282b1244ece241826afb3e9c8468d3cc727c638af063ade38c3c2a5fb23c77f1006", "bf67cd964e929551b491bef855aa0943817a8f66b02137ce8850950c6f117b5315cf9d0ed0c90c334faea7a13462fea94b6ce779b505b6c80dde7f8dfd427b08", "90ad826da30922c9ec9759625a74d3bd3d5cffb2bee937af57199881a14e9e27ba6cd948208788026c247e90d76b5ddd3aaf327ac8d485632103c939e946ac04", },
-	{"e1b7785d4cbcac22c4b6ca00b1226fdac1fb8ce619c75bc391bd5219af87856512164a7c2b625f4fe6f383d82844903a22b9f880e157708327425d2c7f768207", "eb9ecf983dfced01406655ad5b00d57b93da3b85d9b7c64257080c26ac49224c2353660d93524bb46962632e471988fabe735e7caf730122a5f17be078b2d700", "54296c5e58d14a7145b2ab0c99ef88e6257d4db8f7143a175fc3ca1fc95cf95f28fdf7da1bbffdbaf1d4421c64dbe5e1fcff552a3ba2173c5b80e01e1fa9950a", "b8231f67b8f77b88099039422f36220219bf7a41bc87d00b9fa0b9de956e702bfe467a1a2866141efcf12db4457898ae321acba539a7c91aef7aba260367ea0b", },
-	{"2c5a8897bd95db34be9642fdc06918220d67b3ee3b0455df04091ea39716ef5930f69b5fb149acff2e6fe82566c499f64178178ee49db75a47e5c08dc5829401", "fe42ec396e57c5d8222034aa04df9c01fb1707b34c64018e5fc3df2c73144ccd75a1aacf12d8ffbe6f53e7f4718a68d1e305dfb809fa25ff313367210c737503", "d8f93c94d94655ecd945a690f3636924ed213ce49b50b1c96227d689271f7d69090c4976e20fef2ee67a54b4cad02c5ebbcb4f2a59ef2eab9b48410401ec3b0e", "000e14ee5a503f09c9bc5e83adef8f81450b1f035a85adc4e75a5186a7c2d119681d9eeb5cb1f7c2756de177571f6b32110b8c25300e8c5a849106c41276c600", },
-	{"042784af384f326dded3a852124dfa292c335f5f612e7d8f386974e0d511a3deaac03acd1995ea9dcfdf2562ddf4e0adf2eb4237dd776c057b172adbee83b305", "3c5a219c00fc5912e985212c1c5adfce775a9aeb42c2cf2fe4e26f08528f3ee4d1c4af602dd3255b3c3e99f68398c88f0ff8a985276c526b5d6307cbf43fb40f", "0fa3f72e49fd0ac743f2b127ae3556a5e72f689c858b3d3933d0ea836494f7d08ea8ba22d70d9835e3198a05c3aff81a0ca4676e089408f2b461a758851a7f0a", "489b3d444fd18b393e20e677edca7be56bab905c2f2c87b465ce42d6036fc038ab8504a7fdbb8afc209259748490b0ffe0ea48730ec7aa2a1414636f34f3d80d", },
-	{"b4f7a9fbda985e9c7c711e231f5bcda2587e26cf8c55836420c835eaecb5e92e06baeb2c49d62d5908fbee5d039225a05fa10493cb2c94b935cb3033dfd7dc0c", "3010b98a97fa7182a8abe32fe4e3a269b46364eec8bae2f34d0db0b65de3d962a01b4c76f4036dc6bfc12358f0acd3d0e15090aa873c0d6a01974a0b1f7fd908", "ab5b7be438e3264ea16b76ced55b79265c3a7afb2eb348c92e5bfdcd591b6c6765c2142b7a144a44470462e627a8a3a106128812728f74810bf609a2453a710e", "88130d9cd04a7ff7c7180e2cea2759919735b7b52fc120c4456546fcd17bf50571586cd16b7c071369372243b8604100a6ed38c683c6f7e92551dc5f1bef3108", },
-	{"f50c2350d1ff2cf8c0566187b30d091bdbc0f4ad15f6d757e16ef6b57b6ea7eb993357aeb1b094b27ac41f13f60c21ffb7e668aa286b8fcd629e64d30ac69f0e", "93bd168a8403c8fc62894a0c669db64ea87c589eec05ed3cd9663f15a31cd2d3195f492cd6db9dd17ce7bd175d0bf8b0ee9078df29195d7fc23b8e67fe365c09", "d604e35b9a75472a7bc70ff15815b894ae037b38e6b7c0c395b192138b3deaa10e1b846cc8c5b56a4ac9e7e13154f4e8a08b59c5119cee1abde09e590cedb905", "cbfd69ce4ae0714a91e6972245fcaf965448814446b0f2534bd401277eb8a5a7cb3631383b8b5e8c811a80ccfbc8486309e1720395d9e04d8f96f40ffc3c8c0f", },
-	{"6bb9eba5d928a1699c4b4dbbe549988701cd3865f29351ea3bf18f13939179090c92493ff2226d4846392af4adbc4fe4e044a44400f56f7d2f2ccb2984a6a007", "63f8eba50457df82fd70cfde1e1a2a2e3b34b0ed09b4db066799c8c387ecbd8d501ec163493817ef420270c09c1d89a5dba253ca425f45a72ec3755d9e534a0f", "5c34e604fa58f191308c32c461aa75e6f1cf743f3cac899752e0152c907234b51c12590f559a58bb5c2b9d8f0ab2378aa92fc76ae72e52c85cd2876a27bb960b", "ce284e84efd9395df8e49f96184d0a23afe9f892f6c48b9033978986f2d31e0d88e7b2e69acbd2a34c8849df109a7f690699a27ba326db62dcd2924518c2a605", },
-	{"6cf1e389d82082606c1bb1da287ea0d327b45f3ff4ebe5c3a92693feb5510e3c2cce5fc586c24dfe2cc56ae7660231e095bb97debb153696b86da7251b379809", "b86c83a3f23805919f5e55613ce9ab7026569efcb1b4f9d074ea0602a02bdeb4ef4e7c7966a466beac31032f05b8540dbfdf85538ec84b983719d38b70e95f0f", "56af2cec298c65767065f0a92c2764910a04db2661461cbcc73d8085e16dd09a1eafe9e9fcb3a42bfa30de79b966bb6de4f1b295bcc63e77a3ae8823a40b0402", "18da31e516766b3ae4298652f8fc1f2501e0519681c269a7442c49b0e649cc2fd9dc41ac6373b2e19cb81a3bc0ef46e032cf5007989331868dedb26b6947d305", },
-	{"db8039448cc6be9347ac03a581afcf65af5557f9b9b162f395cc2b96f716984f8b608a8a4629d9d2000dbaf3689c5ed2c264ec856463ece7e65376b5f229700f", "da806829714a476116bcac7397143bad23dfdddd83e3382a8f9e7458bb260642cd88bb399a402242abede530f3a692eab94a0e183f90538c6a451f2b0c360d0d", "451c8bdde02813b19f5f51a98726f6d0d582bdd914dd1c9f6081d4cfdd19237e8426325b47b34efd2a665bdd5400282869afd53f9f55f5068474d24e4c97ee0f", "a90ed5892edb638fce20130d1d7d6a72fff9d3836488322cee6276ec37c5ec1721470d409169ea96c773fdb3ec20770749e6cb8fad2a60f80503f1167f3f1c09", },
-	{"d2868c1e422371419cea3780e66b1f25360b19d3fd0e5e1a0ffbb635b37d33c09dfafe6e12093b9c275faf4c69b3e57b520bb506d79163a82b406e78876d9d0b", "9aa57f34a14ebb0fffa1c14208d3eadb022ec00fbd697ade993f314a22254b00a9f48e74b7a97ae7c1fb24293a06725dd6991be1b208608d14c310a98303110a", "2a4bc962e2bb730c2da2eb07926854be6968c73f286cca92f442df1bbbf8e37991f47b1e271babaf4f1ff111746d15ffe6356cb4d7f9b5e2596e03194022a70d", "0050540c0dc29e04fd66c904091fe967d36b90cf18abf47afc34d283dc1fe5d2a14f4c689b9c0ba2a81adc81c35dadf675a7568ceed4d7ba9a9affc8c6c6cd0f", },
+	{"3a6ea77c49ce0708c882430ec73c4b3963ee2740027a3c8bb28b2a0ac9b3dd26072e6caaf8e64a4bf468062433759ab79cc6961b38793d10a51a177581be2b00", "88ea3e0e287d50c13e8fc1954f2d65829f8a9a48c439b5157561ae2b680f0282b1244ece241826afb3e9c8468d3cc727c638af063ade38c3c2a5fb23c77f1006", "bf67cd964e929551b491bef855aa0943817a8f66b02137ce8850950c6f117b5315cf9d0ed0c90c334faea7a13462fea94b6ce779b505b6c80dde7f8dfd427b08", "90ad826da30922c9ec9759625a74d3bd3d5cffb2bee937af57199881a14e9e27ba6cd948208788026c247e90d76b5ddd3aaf327ac8d485632103c939e946ac04"},
+	{"e1b7785d4cbcac22c4b6ca00b1226fdac1fb8ce619c75bc391bd5219af87856512164a7c2b625f4fe6f383d82844903a22b9f880e157708327425d2c7f768207", "eb9ecf983dfced01406655ad5b00d57b93da3b85d9b7c64257080c26ac49224c2353660d93524bb46962632e471988fabe735e7caf730122a5f17be078b2d700", "54296c5e58d14a7145b2ab0c99ef88e6257d4db8f7143a175fc3ca1fc95cf95f28fdf7da1bbffdbaf1d4421c64dbe5e1fcff552a3ba2173c5b80e01e1fa9950a", "b8231f67b8f77b88099039422f36220219bf7a41bc87d00b9fa0b9de956e702bfe467a1a2866141efcf12db4457898ae321acba539a7c91aef7aba260367ea0b"},
+	{"2c5a8897bd95db34be9642fdc06918220d67b3ee3b0455df04091ea39716ef5930f69b5fb149acff2e6fe82566c499f64178178ee49db75a47e5c08dc5829401", "fe42ec396e57c5d8222034aa04df9c01fb1707b34c64018e5fc3df2c73144ccd75a1aacf12d8ffbe6f53e7f4718a68d1e305dfb809fa25ff313367210c737503", "d8f93c94d94655ecd945a690f3636924ed213ce49b50b1c96227d689271f7d69090c4976e20fef2ee67a54b4cad02c5ebbcb4f2a59ef2eab9b48410401ec3b0e", "000e14ee5a503f09c9bc5e83adef8f81450b1f035a85adc4e75a5186a7c2d119681d9eeb5cb1f7c2756de177571f6b32110b8c25300e8c5a849106c41276c600"},
+	{"042784af384f326dded3a852124dfa292c335f5f612e7d8f386974e0d511a3deaac03acd1995ea9dcfdf2562ddf4e0adf2eb4237dd776c057b172adbee83b305", "3c5a219c00fc5912e985212c1c5adfce775a9aeb42c2cf2fe4e26f08528f3ee4d1c4af602dd3255b3c3e99f68398c88f0ff8a985276c526b5d6307cbf43fb40f", "0fa3f72e49fd0ac743f2b127ae3556a5e72f689c858b3d3933d0ea836494f7d08ea8ba22d70d9835e3198a05c3aff81a0ca4676e089408f2b461a758851a7f0a", "489b3d444fd18b393e20e677edca7be56bab905c2f2c87b465ce42d6036fc038ab8504a7fdbb8afc209259748490b0ffe0ea48730ec7aa2a1414636f34f3d80d"},
+	{"b4f7a9fbda985e9c7c711e231f5bcda2587e26cf8c55836420c835eaecb5e92e06baeb2c49d62d5908fbee5d039225a05fa10493cb2c94b935cb3033dfd7dc0c", "3010b98a97fa7182a8abe32fe4e3a269b46364eec8bae2f34d0db0b65de3d962a01b4c76f4036dc6bfc12358f0acd3d0e15090aa873c0d6a01974a0b1f7fd908", "ab5b7be438e3264ea16b76ced55b79265c3a7afb2eb348c92e5bfdcd591b6c6765c2142b7a144a44470462e627a8a3a106128812728f74810bf609a2453a710e", "88130d9cd04a7ff7c7180e2cea2759919735b7b52fc120c4456546fcd17bf50571586cd16b7c071369372243b8604100a6ed38c683c6f7e92551dc5f1bef3108"},
+	{"f50c2350d1ff2cf8c0566187b30d091bdbc0f4ad15f6d757e16ef6b57b6ea7eb993357aeb1b094b27ac41f13f60c21ffb7e668aa286b8fcd629e64d30ac69f0e", "93bd168a8403c8fc62894a0c669db64ea87c589eec05ed3cd9663f15a31cd2d3195f492cd6db9dd17ce7bd175d0bf8b0ee9078df29195d7fc23b8e67fe365c09", "d604e35b9a75472a7bc70ff15815b894ae037b38e6b7c0c395b192138b3deaa10e1b846cc8c5b56a4ac9e7e13154f4e8a08b59c5119cee1abde09e590cedb905", "cbfd69ce4ae0714a91e6972245fcaf965448814446b0f2534bd401277eb8a5a7cb3631383b8b5e8c811a80ccfbc8486309e1720395d9e04d8f96f40ffc3c8c0f"},
+	{"6bb9eba5d928a1699c4b4dbbe549988701cd3865f29351ea3bf18f13939179090c92493ff2226d4846392af4adbc4fe4e044a44400f56f7d2f2ccb2984a6a007", "63f8eba50457df82fd70cfde1e1a2a2e3b34b0ed09b4db066799c8c387ecbd8d501ec163493817ef420270c09c1d89a5dba253ca425f45a72ec3755d9e534a0f", "5c34e604fa58f191308c32c461aa75e6f1cf743f3cac899752e0152c907234b51c12590f559a58bb5c2b9d8f0ab2378aa92fc76ae72e52c85cd2876a27bb960b", "ce284e84efd9395df8e49f96184d0a23afe9f892f6c48b9033978986f2d31e0d88e7b2e69acbd2a34c8849df109a7f690699a27ba326db62dcd2924518c2a605"},
+	{"6cf1e389d82082606c1bb1da287ea0d327b45f3ff4ebe5c3a92693feb5510e3c2cce5fc586c24dfe2cc56ae7660231e095bb97debb153696b86da7251b379809", "b86c83a3f23805919f5e55613ce9ab7026569efcb1b4f9d074ea0602a02bdeb4ef4e7c7966a466beac31032f05b8540dbfdf85538ec84b983719d38b70e95f0f", "56af2cec298c65767065f0a92c2764910a04db2661461cbcc73d8085e16dd09a1eafe9e9fcb3a42bfa30de79b966bb6de4f1b295bcc63e77a3ae8823a40b0402", "18da31e516766b3ae4298652f8fc1f2501e0519681c269a7442c49b0e649cc2fd9dc41ac6373b2e19cb81a3bc0ef46e032cf5007989331868dedb26b6947d305"},
+	{"db8039448cc6be9347ac03a581afcf65af5557f9b9b162f395cc2b96f716984f8b608a8a4629d9d2000dbaf3689c5ed2c264ec856463ece7e65376b5f229700f", "da806829714a476116bcac7397143bad23dfdddd83e3382a8f9e7458bb260642cd88bb399a402242abede530f3a692eab94a0e183f90538c6a451f2b0c360d0d", "451c8bdde02813b19f5f51a98726f6d0d582bdd914dd1c9f6081d4cfdd19237e8426325b47b34efd2a665bdd5400282869afd53f9f55f5068474d24e4c97ee0f", "a90ed5892edb638fce20130d1d7d6a72fff9d3836488322cee6276ec37c5ec1721470d409169ea96c773fdb3ec20770749e6cb8fad2a60f80503f1167f3f1c09"},
+	{"d2868c1e422371419cea3780e66b1f25360b19d3fd0e5e1a0ffbb635b37d33c09dfafe6e12093b9c275faf4c69b3e57b520bb506d79163a82b406e78876d9d0b", "9aa57f34a14ebb0fffa1c14208d3eadb022ec00fbd697ade993f314a22254b00a9f48e74b7a97ae7c1fb24293a06725dd6991be1b208608d14c310a98303110a", "2a4bc962e2bb730c2da2eb07926854be6968c73f286cca92f442df1bbbf8e37991f47b1e271babaf4f1ff111746d15ffe6356cb4d7f9b5e2596e03194022a70d", "0050540c0dc29e04fd66c904091fe967d36b90cf18abf47afc34d283dc1fe5d2a14f4c689b9c0ba2a81adc81c35dadf675a7568ceed4d7ba9a9affc8c6c6cd0f"},
 }
 
 func verifC17Genuine(k, j int) []byte {
